@@ -124,6 +124,15 @@ func runC12(c *Ctx) {
 		c12Run(c, cs)
 		return
 	}
+	files, _ := filepathGlob("/verif/harness/corpus/C12/*.json")
+	for _, f := range files {
+		var wrap struct{ Case c12Case `json:"case"` }
+		b, err := osReadFile(f)
+		if err == nil && json.Unmarshal(b, &wrap) == nil && wrap.Case.BodyKind != "" {
+			c12Run(c, wrap.Case)
+		}
+	}
+	c12HelperLeg(c)
 	if c.Thorough() {
 		// exhaustive grid: every status 100..599 (+0) x every body kind x {no fault, Do fails, read fault at 0, mid, end-1, trunc mid}
 		c.Res.Exhaustive = true
